@@ -97,7 +97,7 @@ PROPERTY_META = {
                 design_ref='DESIGN.md 6 C17'),
     'C18': dict(claimed=True, level='model_checking',
                 text='The pre-states of all vector-level contracts include never-filled vectors (address table content arbitrary), emptied vectors and capacity 0; size/empty/data_begin/data_end/clear/erase/reserve/swap/constructor contracts are discharged on them with all pointer checks on, so no result depends on an uninitialised table slot.',
-                note='Default-constructed vectors (null table) are not yet covered.' + VEC_NOTE, design_ref='DESIGN.md 6 C18'),
+                note='Default-constructed vectors are exercised through the real default constructor followed by the real observers, clear, reserve and destructor (assertions on the real functions).' + VEC_NOTE, design_ref='DESIGN.md 6 C18'),
     'C02': dict(claimed=True, level='proof',
                 text='Per parameter list of the catalogue: the real emplace_at is proved to write only inside the oracle layout of the element (assigns frame per field, memcpy bounds), the real calculate_element_size is proved to bound every element extent and every next-element start for all varying counts (the two per-element facts from which the N-element/B-byte budget follows by induction), and all pointer/bounds checks of the functions under contract are discharged.',
                 note='Parameter lists are enumerated (catalogue), counts/sizes/addresses are universal up to 65536 items per span. The sum over N elements is an induction written in DESIGN.md, not a CBMC obligation.',
@@ -218,10 +218,11 @@ def units(tier, seed=0):
                     repl = [r for r in repl if r not in ('EMPLACE',)]
                     extra = dict(extra); extra['unwind'] = 4; extra['kind'] = 'bounded(capacity 2, span items <= 2, loops unwound)'
                 u = dict(id='vec.%s.F%d.%s' % (L.tag, f, name), tu='vec_%s_F%d' % (L.tag, f), gen=cxx, template_text=txt, vars={}, entry=h,
-                         enforce='@F{%s}' % vec.RXV[key], replace=['@F{%s}' % vec.REPL[r] for r in repl], props=props, layer='vector.hpp/elementLocator.hpp',
+                         enforce=('@F{%s}' % vec.RXV[key]) if key else None, replace=['@F{%s}' % vec.REPL[r] for r in repl], props=props, layer='vector.hpp/elementLocator.hpp',
                          kind=extra.get('kind', 'proof'), config='vector: %s, allocator traits F=%d' % (spec, f))
                 if extra.get('tier') == 'thorough' and tier != 'thorough': continue
                 if extra.get('timeout'): u['timeout'] = extra['timeout']
+                if extra.get('law'): u['expect_classes'] = ['assertion']
                 if extra.get('unwind'): u['unwind'] = extra['unwind']
                 u['cdefs'] = ['VF_BLOCK_K=1'] + (['VF_TRACKED=1'] if tracked else []) + (['VF_TRIVIAL_DTOR=1'] if tracked and all(q.elem != 't' for q in L.params) else [])
                 if extra.get('cdefs_nvar'): u['cdefs'].append('VF_WINDOWS=%d' % min(4, 2 * L.nvar))
